@@ -11,6 +11,7 @@ import (
 	"time"
 
 	"github.com/bradenaw/juniper/chans"
+	"github.com/bradenaw/juniper/iterator"
 	"github.com/bradenaw/juniper/stream"
 	"pgregory.net/rapid"
 
@@ -52,6 +53,9 @@ type Input struct {
 	ErrAt  int   `json:"errat"`         // stream.Merge: -1 none, else fails with E once this many items are out
 	Blocks bool  `json:"blocks,omitempty"` // stream.Merge: after its items the input blocks until its ctx ends
 	ErrKind int  `json:"errkind,omitempty"` // 0 = plain sentinel, 1 = an error wrapping context.Canceled, 2 = wrapping context.DeadlineExceeded
+	// Lib (stream.Merge): the input is one of the library's own streams instead of a recording double:
+	// stream.Empty() when it has no values, stream.FromIterator(iterator.Slice(..)) otherwise (no gaps)
+	Lib bool `json:"lib,omitempty"`
 }
 
 type Plan struct {
@@ -59,6 +63,7 @@ type Plan struct {
 	Pace   []int   `json:"pace"`  // consumer: ms before each receive (cycled)
 	OutBuf int     `json:"outbuf,omitempty"`
 	CloseAfter int `json:"close_after"` // stream.Merge: -1 = read to the end, else Close after this many items
+	CallMs     int `json:"call_ms,omitempty"` // stream.Merge: per-call timeout of the consumer (0 = none); an expired call is retried
 	// Replicate
 	Dsts []Dst `json:"dsts,omitempty"`
 }
@@ -85,6 +90,8 @@ func genInput(t *rapid.T, streamKind bool) Input {
 			in.ErrKind = rapid.IntRange(0, 2).Draw(t, "errkind")
 		case 1:
 			in.Blocks = true
+		case 2, 3:
+			in.Lib = true
 		}
 	}
 	return in
@@ -106,6 +113,14 @@ func genPlan(kind string) func(t *rapid.T) Plan {
 		p.Pace = rapid.SliceOfN(rapid.SampledFrom([]int{0, 0, 1, 10, 500}), 1, 4).Draw(t, "pace")
 		p.OutBuf = rapid.SampledFrom([]int{0, 0, 2}).Draw(t, "outbuf")
 		if kind == "stream-merge" {
+			if rapid.IntRange(0, 3).Draw(t, "calltimeout") == 0 {
+				p.CallMs = rapid.SampledFrom([]int{1, 5, 50}).Draw(t, "callms")
+			}
+			if arity > 0 && rapid.IntRange(0, 7).Draw(t, "allempty") == 0 {
+				for i := range p.Inputs {
+					p.Inputs[i] = Input{ErrAt: -1, Lib: true}
+				}
+			}
 			total := 0
 			blocks := false
 			for _, in := range p.Inputs {
@@ -335,6 +350,14 @@ func runStreamMerge(p Plan) (vk.Outcome, error) {
 				total += in.ErrAt
 			}
 			recs[i], ss[i] = r, r
+			if in.Lib && in.ErrAt < 0 && !in.Blocks {
+				recs[i] = nil
+				if len(items) == 0 {
+					ss[i] = stream.Empty[int]()
+				} else {
+					ss[i] = stream.FromIterator(iterator.Slice(items))
+				}
+			}
 		}
 		m := stream.Merge(ss...)
 		next := map[int]int{}
@@ -343,8 +366,19 @@ func runStreamMerge(p Plan) (vk.Outcome, error) {
 		bg := context.Background()
 		for p.CloseAfter < 0 || got < p.CloseAfter {
 			time.Sleep(ms(p.Pace[got%len(p.Pace)]))
-			v, err := m.Next(bg)
+			ctx, cancel := bg, context.CancelFunc(func() {})
+			if p.CallMs > 0 {
+				ctx, cancel = context.WithTimeout(bg, ms(p.CallMs))
+			}
+			v, err := m.Next(ctx)
+			expired := ctx.Err() != nil
+			cancel()
 			if err != nil {
+				if expired && err == context.DeadlineExceeded {
+					// this call's own context ran out: costs nothing, the next call carries on
+					out.Label("call-expired")
+					continue
+				}
 				final = err
 				break
 			}
@@ -389,6 +423,9 @@ func runStreamMerge(p Plan) (vk.Outcome, error) {
 		m.Close()
 		// after Close returned: every input closed exactly once, nothing left running (the bubble must exit)
 		for _, r := range recs {
+			if r == nil {
+				continue
+			}
 			if err := r.Ownership(); err != nil {
 				return vk.Violf("ownership", "after Close of the merged stream: %v", err)
 			}
